@@ -79,7 +79,7 @@ func buildC17(tier string) sim.Scenario {
 		simnet.Dial = farm.dial
 		patterns := []string{"/a", "/a/", "/a/b", "/a/b/", "/ab/", "/", "/A/B/", "a/b/c", " /a/b/c/ ", "/cam/", "/cam/1"}
 		urls := []string{"rtsp://h1/x", "rtsp://h2/x/", "rtsp://h3", "rtsp://h4/", "rtsp://u:p@h5:8554/base/q"}
-		paths := []string{"/a", "/a/b", "/a/b/c", "/a/b/c/d", "/ab/c", "/a/bc", "/A/B/C", "/a//b/c", "/a/b/", "/x", "/", "/cam/1", "/cam/1/2", "/CAM/9", "a/b/c/d/e"}
+		paths := []string{"/a", "/a/b", "/a/b/c", "/a/b/c/d", "/ab/c", "/a/bc", "/A/B/C", "/a//b/c", "/a/b/", "/x", "/", "/cam/1", "/cam/1/2", "/CAM/9", "a/b/c/d/e", "/a/b/a", "/a/b/ba/x", "/a/a", "/ab/ba", "/cam/ca/m"}
 
 		var mu sync.Mutex
 		model := map[string]c17Route{}
